@@ -3148,12 +3148,47 @@ static Node *struct_ref(Node *node, Token *tok) {
   return node;
 }
 
-// Convert A++ to `(typeof A)((A += 1) - 1)`
+// Convert A++ to `tmp = &A, old = *tmp, *tmp = old + 1, old`.
+//
+// The result is the value A had before: `(A += 1) - 1` is something
+// else when the addition wraps around in a bit-field or saturates in
+// a _Bool. Only an atomic object is updated with one read-modify-write
+// operation: `(typeof A)((A += 1) - 1)`.
 static Node *new_inc_dec(Node *node, Token *tok, int addend) {
   add_type(node);
-  return new_cast(new_add(to_assign(new_add(node, new_num(addend, tok), tok)),
-                          new_num(-addend, tok), tok),
-                  node->ty);
+
+  if (node->ty->is_atomic)
+    return new_cast(new_add(to_assign(new_add(node, new_num(addend, tok), tok)),
+                            new_num(-addend, tok), tok),
+                    node->ty);
+
+  // A bit-field has no address: take the address of the struct.
+  bool is_member = (node->kind == ND_MEMBER);
+  Node *base = is_member ? node->lhs : node;
+  Obj *tmp = new_lvar("", pointer_to(base->ty));
+  Obj *old = new_lvar("", node->ty);
+
+  Node *lval[2];
+  for (int i = 0; i < 2; i++) {
+    lval[i] = new_unary(ND_DEREF, new_var_node(tmp, tok), tok);
+    if (is_member) {
+      lval[i] = new_unary(ND_MEMBER, lval[i], tok);
+      lval[i]->member = node->member;
+    }
+  }
+
+  Node *expr1 = new_binary(ND_ASSIGN, new_var_node(tmp, tok),
+                           new_unary(ND_ADDR, base, tok), tok);
+  Node *expr2 = new_binary(ND_ASSIGN, new_var_node(old, tok), lval[0], tok);
+  Node *expr3 = new_binary(ND_ASSIGN, lval[1],
+                           new_add(new_var_node(old, tok), new_num(addend, tok), tok),
+                           tok);
+
+  return new_binary(ND_COMMA, expr1,
+                    new_binary(ND_COMMA, expr2,
+                               new_binary(ND_COMMA, expr3, new_var_node(old, tok), tok),
+                               tok),
+                    tok);
 }
 
 // postfix = "(" type-name ")" "{" initializer-list "}"
